@@ -13,6 +13,7 @@ PROP = dict(
     # inside Coq (vm_compute on Rawdb/AllocDigest.a_trace_digest: every field of every state, every result, sampled
     # bytes); the digests must be equal.  Cheap enough for every run.
     always_cmds=[["tools/x_crosscheck.py", "rawdb", "--cases", "24"]],
+    thorough_cmds=[["tools/x_crosscheck.py", "rawdb", "--cases", "120", "--seed", "7"]],
     engines=[dict(
         name="rawdb", classify=classify, shrink="ops",
         quick=dict(cases=480, shards=8, profiles=["debug"]),
